@@ -191,7 +191,11 @@ def nochange(ctx):
             for s in b.blocks[bb]["s"]:
                 if s[0] == "A" and s[2][0] == "disc" and op_local(t["d"]) == s[1][0]:
                     pl = s[2][1]
+                    # `match version_info { (Some(seq), _) .. }` on the row tuple, or `let Some(seq) = max_seq` on its first part
                     if "CrsqlSeq" in b.ty(pl[0]) and any(isinstance(x, list) and x[0] == "f" and x[1] == 0 for x in pl[1:]):
+                        sws.append(bb)
+                    elif len(pl) == 1 and re.match(r"^core::option::Option<klukai_types::base::CrsqlSeq>$", b.ty(pl[0])) \
+                            and any(o.kind == "call" and o.call.name() in ("query_row", "query_one") for o in flow.origins(b, pl, at=(bb, "T"))):
                         sws.append(bb)
     if not R.anchor(sws, "seq-match", "match on MAX(seq) being Some/None"):
         return
